@@ -218,7 +218,7 @@ def prove(ctx, extra_modules=()):
     # parse: "'name' depends on axioms: [a, b]" or "'name' does not depend on any axioms"
     text = so.replace("\n ", " ").replace("\n  ", " ")
     found = {}
-    for m in re.finditer(r"'([^']+)' (does not depend on any axioms|depends on axioms: \[([^\]]*)\])", so.replace("\n", " ")):
+    for m in re.finditer(r"'(\S+?)' (does not depend on any axioms|depends on axioms: \[([^\]]*)\])", so.replace("\n", " ")):
         axs = set(a.strip() for a in (m.group(3) or "").split(",") if a.strip())
         found[m.group(1)] = axs
     for n in names:
@@ -318,22 +318,75 @@ def run_ti_once(ti, args, cwd, timeout=10, env=None):
         return -9, "HARD-TIMEOUT\n", ""
 
 
-_solo = Lock("solo")
+class _RW:
+    """Readers = ordinary parallel runs; writer = a solitary re-run of an input that printed `timeout`."""
+
+    def __init__(self):
+        import threading
+        self.c = threading.Condition()
+        self.readers = 0
+        self.writer = False
+        self.waiting = 0
+
+    def r_acquire(self):
+        with self.c:
+            while self.writer or self.waiting:
+                self.c.wait()
+            self.readers += 1
+
+    def r_release(self):
+        with self.c:
+            self.readers -= 1
+            self.c.notify_all()
+
+    def w_acquire(self):
+        with self.c:
+            self.waiting += 1
+            while self.writer or self.readers:
+                self.c.wait()
+            self.waiting -= 1
+            self.writer = True
+
+    def w_release(self):
+        with self.c:
+            self.writer = False
+            self.c.notify_all()
+
+
+_rw = _RW()
+SOLO_RERUNS = [0]
+
+
+def is_timeout(rc, so):
+    return (rc == 1 and so.strip().endswith("timeout")) or rc == -9
 
 
 def run_ti(ti, args, cwd, env=None):
-    """Runs ti; a `timeout` answer is re-run (the 500 ms watchdog fires spuriously under load)."""
-    rc, so, se = run_ti_once(ti, args, cwd, env=env)
-    tries = 0
-    while (so.strip().endswith("timeout") and rc == 1 or rc == -9) and tries < 3:
-        tries += 1
-        time.sleep(0.05 * tries)
+    """Runs ti. A `timeout` answer is re-run alone (all other harness runs paused): the 500 ms
+    wall-clock watchdog fires spuriously under load, so only a timeout that persists when the
+    input runs by itself counts."""
+    _rw.r_acquire()
+    try:
         rc, so, se = run_ti_once(ti, args, cwd, env=env)
+    finally:
+        _rw.r_release()
+    if not is_timeout(rc, so):
+        return rc, so, se
+    _rw.w_acquire()
+    try:
+        SOLO_RERUNS[0] += 1
+        for _ in range(2):
+            rc, so, se = run_ti_once(ti, args, cwd, env=env)
+            if not is_timeout(rc, so):
+                break
+    finally:
+        _rw.w_release()
     return rc, so, se
 
 
 def pmap(fn, items, workers=None):
-    workers = workers or NCPU
+    # process start-up of ti (config load) does not scale past ~6 concurrent runs in this sandbox
+    workers = workers or min(NCPU, 6)
     with cf.ThreadPoolExecutor(max_workers=workers) as ex:
         return list(ex.map(fn, items))
 
